@@ -1138,3 +1138,26 @@ def normal_announced(ctx, rule="R-NORMAL-ANNOUNCED"):
                                  pretty(cur[ADDR_F])[:50], pretty(cur[ANN_F])[:50], pretty(cur[ANN_F])[:50]), became.node)
     if n < 3:
         ctx.unknown(rule, "paths entering NORMAL not found (%d)" % n)
+
+
+def ca_registry_steps(ctx, rule="R-CA-REGISTRY", which=("subscribe_request", "add_timer", "remove_timer", "subscribe", "unsubscribe")):
+    """the registration entry points of a ControllerApplication do register: subscribe_request records the callback in the list the request
+    handler walks; add_timer / remove_timer / subscribe / unsubscribe hand their arguments on to the ECU"""
+    P = ctx.prog
+    for nm in which:
+        f = P.func(CA, nm)
+        ok = False
+        for r in runs(ctx, f):
+            for _, e in r.effects():
+                if e.kind != "call":
+                    continue
+                if nm == "subscribe_request":
+                    ok = ok or (e.value[1] == ("attr", field("_subscribers_request"), "append") and e.value[2] == (("p", "callback"),))
+                else:
+                    ok = ok or (e.value[1] == ("attr", field("_ecu"), nm) and contains(("x",) + tuple(e.value[2]) + tuple(v for _, v in e.value[3]), ("p", "callback")))
+        inst = "ControllerApplication.%s %s" % (nm, "records the callback for the request handler" if nm == "subscribe_request" else "hands the callback on to the ECU")
+        if ok:
+            ctx.holds(rule, inst)
+        else:
+            ctx.violated(rule, f, inst, "the call returns without registering / deregistering anything: the callback is never called (or never stops "
+                         "being called)", f.node)
